@@ -6,7 +6,8 @@ library's stopped inline executor (`stp`: Drop inside Submit; it is what `Task::
 `user k`, each either a FIFO queue drained by the client (ManualExecutor-like) or Call-inside-Submit, with an acceptance
 decision made at the Submit (`limit = some n`: Submits n+1, n+2, … are refused ⇒ Drop) — "the k-th submission rejected".
 Strand and FairThreadPool satisfy the same contract by C07 / C08; this file is about the contract for Inline / Manual and
-about *placement* for all pipelines.
+about *placement* for all pipelines.  The last section is about jobs that are not pipeline steps: the free function
+`yaclib::Submit(executor, f)` of exe/submit.hpp (Model/FreeJob.lean).
 
 All theorems are for ALL event lists `evs` (any program, any length, any order of fulfilling / draining / starting /
 dropping) and ALL executor configurations `cfg` (any rejection position).  The log theorems (`called_xor_dropped`,
@@ -16,6 +17,7 @@ an inner Schedule / LazyContract head returned from a continuation is now a subm
 import YaclibModel.Proofs.PipelineLog2
 import YaclibModel.Proofs.PipelineSpec
 import YaclibModel.Proofs.PipelineTerm
+import YaclibModel.Proofs.FreeJob
 import YaclibModel.Extracted.Kernels
 import YaclibModel.Model.Skeletons
 
@@ -276,6 +278,94 @@ example : (run cfgEx {} exEvents).result = some (.val 40) ∧
     (run cfgEx {} exEvents).g.jobs = [(0, true), (1, true), (2, true), (3, true), (4, false), (5, false)] := by
   decide +kernel
 
+/-! ### jobs that are not pipeline steps: `yaclib::Submit(executor, f)` (exe/submit.hpp, Model/FreeJob.lean)
+
+For ALL executor configurations and ALL sequences of `Submit(e, f_id)` / `call k` events. -/
+
+section FreeJobs
+open Yaclib.FreeJob
+variable (fevs : List FEvent)
+
+/-- every functor handed to Submit(e, f) is in exactly one place: invoked (Call), destroyed without being invoked (Drop), or
+    still lying in a queue — counted per functor number, so a functor submitted once is never both called and dropped, never
+    called twice, never lost -/
+theorem free_job_one_place (id : Nat) :
+    (frun cfg {} fevs).submitted.count id =
+      (frun cfg {} fevs).called.count id + (frun cfg {} fevs).dropped.count id + (frun cfg {} fevs).queued.count id :=
+  (finv_run cfg fevs {} finv_init).place id
+
+/-- Called xor Dropped: once no job is queued any more, a functor that was submitted once was either called once and not
+    dropped, or dropped once and not called -/
+theorem free_job_called_xor_dropped (id : Nat) (hq : (frun cfg {} fevs).queue = [])
+    (h1 : (frun cfg {} fevs).submitted.count id = 1) :
+    ((frun cfg {} fevs).called.count id = 1 ∧ (frun cfg {} fevs).dropped.count id = 0) ∨
+    ((frun cfg {} fevs).called.count id = 0 ∧ (frun cfg {} fevs).dropped.count id = 1) := by
+  have h := free_job_one_place cfg fevs id
+  simp only [FState.queued, hq, List.map_nil, List.count_nil] at h
+  omega
+
+/-- Drop happens only — and always — when the executor refused the Submit (stopped inline executor, or a user executor past
+    its limit): the dropped functors are exactly the refused ones, in order -/
+theorem free_job_dropped_iff_refused : (frun cfg {} fevs).dropped = (frun cfg {} fevs).refused :=
+  (finv_run cfg fevs {} finv_init).dropRef
+
+/-- the callbacks that ran are the called functors, in order: nothing else is invoked -/
+theorem free_job_invoked_eq_called : (frun cfg {} fevs).g.invoked = (frun cfg {} fevs).called :=
+  (finv_run cfg fevs {} finv_init).inv
+
+/-- `Submit(MakeInline(StopTag{}), f)`: f is destroyed without being invoked, inside the Submit -/
+theorem free_job_stopped_inline_drops (s : FState) (id : Nat) :
+    (fmech cfg s (.submit .stp id)).called = s.called ∧
+    (fmech cfg s (.submit .stp id)).g.invoked = s.g.invoked ∧
+    (fmech cfg s (.submit .stp id)).dropped = s.dropped ++ [id] ∧
+    (fmech cfg s (.submit .stp id)).queue = s.queue := by
+  simp [fmech, submit]
+
+/-- `Submit(MakeInline(), f)`: f is invoked inside the Submit, in the caller's context -/
+theorem free_job_inline_calls (s : FState) (id : Nat) :
+    (fmech cfg s (.submit .inl id)).called = s.called ++ [id] ∧
+    (fmech cfg s (.submit .inl id)).g.invoked = s.g.invoked ++ [id] ∧
+    (fmech cfg s (.submit .inl id)).dropped = s.dropped := by
+  simp [fmech, submit, G.invoke]
+
+/-- exactly one allocation per Submit (the UniqueJob holding the functor), deleted exactly once when the job is finished -/
+theorem free_job_deleted_once :
+    (frun cfg {} fevs).news = (frun cfg {} fevs).submitted.length ∧
+    (frun cfg {} fevs).news = (frun cfg {} fevs).deletes + (frun cfg {} fevs).queue.length ∧
+    (frun cfg {} fevs).deletes = (frun cfg {} fevs).called.length + (frun cfg {} fevs).dropped.length := by
+  have h := finv_run cfg fevs {} finv_init
+  refine ⟨?_, h.del, h.fin⟩
+  have : ∀ (evs : List FEvent) (s : FState), s.news = s.submitted.length →
+      (frun cfg s evs).news = (frun cfg s evs).submitted.length := by
+    intro evs
+    induction evs with
+    | nil => intro s hs; exact hs
+    | cons ev evs ih =>
+      intro s hs
+      apply ih
+      cases ev with
+      | submit e id =>
+        simp only [fmech]
+        cases submit cfg e none s.g <;> simp [hs]
+      | call k =>
+        simp only [fmech]
+        cases s.queue.find? (fun j => j.k == k) <;> simp [hs]
+  exact this fevs {} rfl
+
+/-- a queued job can always be finished: letting its executor run shrinks the queue (so `flush` empties it) -/
+theorem free_job_can_finish (s : FState) (j : QJob) (rest : List QJob) (hq : s.queue = j :: rest) :
+    (fmech cfg s (.call j.k)).queue.length < s.queue.length :=
+  call_front_shrinks cfg s j rest hq
+
+/-- non-vacuity: e1 queue, e2 queue accepting one Submit; inline, stopped inline, e1, e2 (accepted), e2 (refused) -/
+example : let s := frun cfgEx {} [.submit .inl 1, .submit .stp 2, .submit (.user 1) 3, .submit (.user 2) 4,
+                                  .submit (.user 2) 5, .call 2, .call 1]
+    s.called = [1, 4, 3] ∧ s.dropped = [2, 5] ∧ s.queue = [] ∧ s.g.subs = [1, 2, 2] ∧
+    s.g.jobs = [(2, false), (1, true), (0, true)] ∧ s.news = 5 ∧ s.deletes = 5 := by
+  decide +kernel
+
+end FreeJobs
+
 end Yaclib.Props.C05
 
 namespace Yaclib.Props.C05.Tie
@@ -296,6 +386,12 @@ theorem tie_FutureBase_DetachOn : Extracted.Kernels.FutureBase_DetachOn = Skelet
 theorem tie_FutureOn_DetachInherit : Extracted.Kernels.FutureOn_DetachInherit = Skeletons.FutureOn_DetachInherit := rfl
 theorem tie_detail_Run : Extracted.Kernels.detail_Run = Skeletons.detail_Run := rfl
 theorem tie_MakeContractOn : Extracted.Kernels.MakeContractOn = Skeletons.MakeContractOn := rfl
+-- free jobs (Model/FreeJob.lean)
+theorem tie_Submit_free : Extracted.Kernels.Submit_free = Skeletons.Submit_free := rfl
+theorem tie_MakeUniqueJob : Extracted.Kernels.MakeUniqueJob = Skeletons.MakeUniqueJob := rfl
+theorem tie_UniqueJob_Call : Extracted.Kernels.UniqueJob_Call = Skeletons.UniqueJob_Call := rfl
+theorem tie_UniqueJob_Drop : Extracted.Kernels.UniqueJob_Drop = Skeletons.UniqueJob_Drop := rfl
+theorem tie_SafeCall_Call : Extracted.Kernels.SafeCall_Call = Skeletons.SafeCall_Call := rfl
 
 /-- T1: the CoreType flag sets of the attachment API: exactly the *Inline ones lack the Call bit -/
 theorem api_flags :
